@@ -127,6 +127,28 @@ def correspondence(ctx):
                 if len(ks) > 0:
                     ctx.disagree("from_versions:" + name, "fromversions %s" % ks, "raises " + type(e).__name__, "a range", True,
                                  {"scheme": name, "versions": texts, "clause": "raises"}, spec="a range")
+        # a one-shot iterable (an iterator, a generator, map()) is a list of versions like any other
+        for i in range(6):
+            m = bench.mapping(8, rng)
+            texts = [m[k][0] for k in sorted(rng.sample(range(8), rng.randint(1, 4)))]
+            ctx.count("from_versions:" + name, key=("iter", tuple(texts)), nontrivial=True, branch="one-shot iterable")
+            try:
+                want = rcls.from_versions(list(texts))
+                r0 = rcls(constraints=[VersionConstraint(comparator=">=", version=m[0][1])])
+                wantn = r0.normalize(list(texts))
+            except Exception:  # noqa: BLE001
+                continue
+            for label, mk in (("iter(list)", lambda: iter(list(texts))), ("generator", lambda: (t for t in texts)), ("map", lambda: map(str, texts))):
+                try:
+                    got = rcls.from_versions(mk())
+                    gotn = r0.normalize(mk())
+                except Exception as e:  # noqa: BLE001
+                    got = gotn = "raises " + type(e).__name__
+                if not (got == want) or not (gotn == wantn):
+                    ctx.disagree("from_versions:" + name, "%s of %s" % (label, texts), "%s / normalize %s" % (got, gotn), "%s / normalize %s" % (want, wantn), True,
+                                 {"scheme": name, "versions": texts, "given_as": label,
+                                  "clause": "the same versions given as a one-shot iterable give another range"}, spec="the same range as for the list")
+                    break
         # every version of the pool that has a second spelling: the range built from ONE listed version (a single `=`
         # constraint: the one-constraint shortcut of membership) contains it in its other spelling
         for cl in bench.pool.classes:
